@@ -68,6 +68,14 @@ inline void oracle_C01(An &a, vf::Stats &st) {
   ref::Sem sem(a.fr.prog, SEM_BUDGET, false); ref::SemResult &r = sem.go();
   if (r.outside) { st.add("skipped_jump_into_counting_loop"); return; }
   if (r.big) { st.add("skipped_values_reach_2^31-1"); return; }
+  if (a.fr.prog.defs.empty() && r.finished) {
+    // the reference interpreter is itself cross-checked against a direct recursive definition on the structured fragment
+    ref::Denote d(200000); d.seq(a.fr.prog.main);
+    if (d.applicable && !d.out_of_fuel) {
+      for (auto &p : r.final_frames[0].vars) if (d.env[p.first] != p.second) { fprintf(stderr, "ERROR: the two reference semantics disagree on %s (%lld vs %lld) for %s\n", p.first.c_str(), d.env[p.first], p.second, a.key().c_str()); exit(2); }
+      st.add("reference_cross_checked_with_second_semantics");
+    }
+  }
   Theo::VM vm(a.cr.code);
   long long budget = r.finished ? 64 * r.steps + 64 : SEM_BUDGET, n = 0;
   while (!vm.isDone() && n < budget) { vm.executeSingle(); n++; }
